@@ -287,7 +287,33 @@ class SymStr:
     def __reversed__(self):
         return iter([mkstr([q]) for q in reversed(self._dense().p)])
 
+    def _aligned_slice(self, k):
+        """slice that cuts no fixed-width decimal piece: keep the pieces intact (no digit extraction)"""
+        if k.step not in (None, 1) or any(isinstance(x, SymInt) for x in (k.start, k.stop)):
+            return None
+        ws = []
+        for q in self.p:
+            if isinstance(q, Opt) or (isinstance(q, Dec) and q.wlo != q.whi):
+                return None
+            ws.append(q.wlo if isinstance(q, Dec) else 1)
+        start, stop, _ = k.indices(sum(ws))
+        out, pos = [], 0
+        for q, w in zip(self.p, ws):
+            lo, hi = pos, pos + w
+            pos = hi
+            if hi <= start or lo >= stop:
+                continue
+            if lo >= start and hi <= stop:
+                out.append(q)
+            else:
+                return None
+        return out
+
     def __getitem__(self, k):
+        if isinstance(k, slice) and not self.dense():
+            al = self._aligned_slice(k)
+            if al is not None:
+                return mkstr(al)
         s = self._dense()
         if isinstance(k, slice):
             if any(isinstance(x, SymInt) for x in (k.start, k.stop, k.step)):
@@ -419,6 +445,22 @@ def mkstr(pieces):
 
 
 def str_eq(a, b):
+    if len(a.p) == len(b.p) and not (a.dense() and b.dense()):
+        # piecewise comparison when both sides have the same fixed-width piece structure
+        conds, ok = [], True
+        for x, y in zip(a.p, b.p):
+            if isinstance(x, Dec) and isinstance(y, Dec) and x.wlo == x.whi == y.wlo == y.whi:
+                conds.append(x.v == y.v)
+            elif isinstance(x, (Dec, Opt)) or isinstance(y, (Dec, Opt)):
+                ok = False
+                break
+            elif isinstance(x, int) and isinstance(y, int):
+                if x != y:
+                    return False
+            else:
+                conds.append(zc(x) == zc(y))
+        if ok:
+            return mkbool(z3.And(conds)) if conds else True
     a, b = a.norm(), b.norm()
     if not (a.dense() and b.dense()):
         # var-width decimal pieces: equal iff same width and same digits; fork on the widths
